@@ -133,7 +133,10 @@ class SocketDriver(drivers.IrcDriver, drivers.ServersMixin):
             del msgs[-1]
             data = ''.join(map(str, msgs))
             if minisix.PY3:
-                data = data.encode()
+                # 'replace': text that cannot be encoded (a lone surrogate,
+                # e.g. from a quoted "\ud800" argument) is sent as '?' rather
+                # than raising UnicodeEncodeError out of the driver loop.
+                data = data.encode('utf-8', 'replace')
             self.outbuffer += data
         if self.outbuffer:
             try:
